@@ -19,7 +19,8 @@ def ResumeU (K V : Type) : Prop :=
 
 def ResumeD (K V : Type) : Prop :=
   ∀ (P : Params K) (t : Nat) (s : St K V) (k : Kont K V) (H : List Lk),
-    isDelK k = true → Pre P (kontHole k) s → KontOk s.tree k → KontPre s.cursor k → Covers H s.cursor k →
+    isDelK k = true → 4 ≤ s.tree.order →
+    Pre P (kontHole k) s → KontOk s.tree k → KontPre s.cursor k → Covers H s.cursor k →
     Post H (flowHole (resume P t s k).2) s (resume P t s k).1 (resume P t s k).2
 
 def ResumeLive (K V : Type) : Prop :=
@@ -155,7 +156,8 @@ theorem runThread_sinv (B : Blocks K V) (P : Params K) (t : Nat) (th : Thread K 
     (h0 : s0.held = th.held) (hc0 : s0.cursor = th.cursor) (he0 : s0.exhausted = th.exhausted)
     (hpre : Pre P hole s0) (hok : ThreadOk th) (hs : ThreadSOk s0.tree th) (hd : DiscOk th)
     (hnf : th.park ≠ .finished)
-    (hhole : isDelPark th.park = true → hole = parkHole th.park) :
+    (hhole : isDelPark th.park = true → hole = parkHole th.park)
+    (h4 : isDelPark th.park = true → 4 ≤ s0.tree.order) :
     ∃ hole', ThreadOut s0.tree (stepHeld th) hole' th (runThread P t th s0) ∧
       (isDelPark th.park = true → hole' = parkHole (runThread P t th s0).1.park) ∧
       (isDelPark th.park = false → hole' = hole ∧ parkHole (runThread P t th s0).1.park = none) := by
@@ -224,7 +226,7 @@ theorem runThread_sinv (B : Blocks K V) (P : Params K) (t : Nat) (th : Thread K 
     simp only
     unfold DiscOk at hd
     unfold ThreadSOk at hs
-    rw [hp] at hd hs hhole
+    rw [hp] at hd hs hhole h4
     obtain ⟨st', hd1, hd2⟩ := hd
     have hcov := covers_of_ok hc0 hok k (Or.inr ⟨l, hp⟩)
     have hkp : KontPre s0.cursor k := by
@@ -241,7 +243,8 @@ theorem runThread_sinv (B : Blocks K V) (P : Params K) (t : Nat) (th : Thread K 
     | true =>
       have hhk : hole = kontHole k := by
         rw [hhole (by simp [isDelPark, hdel]), parkHole_want]
-      have hpost := B.resD P t s0 k (stepHeld th) hdel (by rw [← hhk]; exact hpre) hs.1 hkp hcov
+      have hpost := B.resD P t s0 k (stepHeld th) hdel (h4 (by simp [isDelPark, hdel]))
+        (by rw [← hhk]; exact hpre) hs.1 hkp hcov
       obtain ⟨hout, hh⟩ := after_post B t th (stepHeld th) _ s0 _ _ th.pc hpost
         (fun p hp' => B.resLive P t s0 k p hp') (resume_not_hop P t s0 k) ⟨st', hd1, habs⟩
       exact ⟨_, hout, fun _ => hh.symm, fun h => by simp [isDelPark, hdel] at h⟩
